@@ -23,6 +23,69 @@ def sigfn(facet, kind, key, det):
     return "C08/%s/%s" % (kind, key)
 
 
+def worktree_head_stage(chk, b, tier):
+    """ROOT spellings that mean something else in every worktree (HEAD, HEAD~1, HEAD:path): started inside a linked worktree
+    whose HEAD differs from the main one, every cited object must be reachable from THAT worktree's HEAD and every description
+    must resolve to it there."""
+    import os
+    import random
+    import shutil
+    import subprocess
+    from .. import gen as G
+    from .. import oracle as O
+    from .. import parse_out as P
+    from .. import run as R
+    rng = random.Random("C08wt|%d" % R.SEED)
+    d = os.path.join(b.scratchdir(), "wthead")
+    shutil.rmtree(d, ignore_errors=True)
+    os.makedirs(d)
+    n = 0
+    for k in range(3 if tier == "quick" else 40):
+        pool = G.Pool(rng)
+        base = G.Commit(pool.new_tree(max_depth=2, allow_empty=False), [], cts=1500000000, msg=b"base\n")
+        main = G.Commit(G.Tree([G.Entry(G.FILE, b"main.bin", pool.new_blob(5000)), G.Entry(G.TREE, b"d", pool.new_tree(max_depth=1, allow_empty=False))]),
+                        [base], cts=1500000100, msg=b"main side\n")
+        other = G.Commit(G.Tree([G.Entry(G.FILE, b"other.bin", pool.new_blob(9000 + k)), G.Entry(G.TREE, b"sub", pool.new_tree(max_depth=2, allow_empty=False))]),
+                         [base], cts=1500000200, msg=b"worktree side " * 30 + b"\n")
+        m = G.Model()
+        m.bare = False
+        m.refs = {"refs/heads/main": main, "refs/heads/other": other}
+        work = os.path.join(d, "r%d" % k)
+        G.write_model(m, work)
+        wt = os.path.join(d, "r%d-wt" % k)
+        p = subprocess.run([G.REAL_GIT, "-C", work, "worktree", "add", "--detach", "--no-checkout", wt, other.oid], env=G.git_env(),
+                           stdout=subprocess.PIPE, stderr=subprocess.PIPE)
+        if p.returncode != 0:
+            chk.inconc("worktree add failed: %r" % p.stderr[:100])
+            continue
+        reach = O.reachable([other])
+        for roots in (["HEAD"], ["HEAD~1", "HEAD"], ["HEAD:sub", "HEAD^{tree}"], ["@"]):
+            r = R.sizer(b.sizer(), wt, ["--json", "--json-version=2", "--no-progress", "--names=full"] + roots, tmpdir=d)
+            chk.count()
+            n += 1
+            if r.rc != 0:
+                chk.violation("C08/linked-worktree-head/run-failed", {"roots": roots, "stderr": r.err[-300:].decode("utf-8", "replace")})
+                continue
+            js, _ = P.parse_json(r.out)
+            for key, item in (js or {}).items():
+                if not isinstance(item, dict) or "objectName" not in item:
+                    continue
+                oid, desc = item["objectName"], item.get("objectDescription")
+                if oid not in reach:
+                    chk.violation("C08/linked-worktree-head/cited-object-not-reachable-from-this-worktrees-HEAD",
+                                  {"metric": key, "oid": oid, "description": desc, "roots": roots})
+                elif desc:
+                    q = subprocess.run([G.REAL_GIT, "-C", wt, "--no-replace-objects", "rev-parse", "--verify", "--end-of-options", desc],
+                                       env=G.git_env(), stdout=subprocess.PIPE, stderr=subprocess.PIPE)
+                    got = q.stdout.decode().strip()
+                    if got != oid:
+                        chk.violation("C08/linked-worktree-head/description-resolves-elsewhere-in-this-worktree",
+                                      {"metric": key, "oid": oid, "description": desc, "resolves_to": got or None, "roots": roots})
+            chk.nontrivial(("wthead", k, tuple(roots)))
+    chk.cov["linked_worktree_head_runs"] = n
+    shutil.rmtree(d, ignore_errors=True)
+
+
 def run(chk, b, tier):
     n = 240 if tier == "quick" else 12000
 
@@ -42,5 +105,6 @@ def run(chk, b, tier):
                  "exactly that oid; --names=hash shows no description, --names=none cites nothing. 30% of runs behind the "
                  "permuting shim. Non-trivial: run cites >=1 object.",
                  want_table=True, names_modes=("full", "full", "full", "hash", "none"), permute=0.3, sigfn=sigfn, cut_refs=0.08, tail_sweep=12)
+    worktree_head_stage(chk, b, tier)
     chk.assumptions += ["git rev-parse is the judge of whether a description resolves",
                         "reference model's witness sets (all objects attaining the maximum) trusted"]
